@@ -104,14 +104,21 @@ SubOps ==
        \cup {[name |-> "insert", k |-> ArgK(1, c, CHOOSE r \in Vers : TRUE), v |-> ArgV(1, v)] : c \in Classes, v \in Vals}
        \cup {[name |-> "remove", c |-> c, form |-> 1] : c \in Classes}
        \cup {[name |-> "get_mut", c |-> c, form |-> 0, w |-> w] : c \in Classes, w \in Vals}
+\* destinations of clone_from: empty, one entry, two entries (shorter / equal / longer than the source)
+DstSeqs == {<<>>} \cup {<<[c |-> c, r |-> CHOOSE r \in Vers : TRUE, v |-> MinVal]>> : c \in Classes}
+           \cup {x \in {<<[c |-> c, r |-> CHOOSE r \in Vers : TRUE, v |-> MinVal], [c |-> d, r |-> CHOOSE r \in Vers : TRUE, v |-> MinVal]>> :
+                           c \in Classes, d \in Classes} : x[1].c # x[2].c}
 CloneOps(ts) ==
   {[name |-> "clone", then |-> t, on |-> o, survivor |-> sv] : t \in SubOps, o \in {"orig", "copy"}, sv \in {"orig", "copy"}}
+  \cup {[name |-> IF Mode = "set" THEN "s_clone_from" ELSE "clone_from", dst |-> d] : d \in {d \in DstSeqs : Len(d) <= cap}}
 
 \* target capacities: exactly enough, the source capacity, more than the source capacity
 SerdeOps(ts) ==
   {[name |-> "serde", fmt |-> f, m |-> m] : f \in {"json", "bincode"}, m \in {Len(ts), cap, cap + 1}}
 
-FmtOps(ts) == {[name |-> "fmt", style |-> st] : st \in {"debug", "alt", "display"}}
+\* "debug_w" / "display_w": the same renderings requested with a width / alignment in the format spec
+FmtStyles == {"debug", "alt", "display", "debug_w", "display_w"}
+FmtOps(ts) == {[name |-> "fmt", style |-> st] : st \in FmtStyles}
 
 SetCoreOps(ts) ==
   {[name |-> nm, k |-> ArgK(1, c, r)] : nm \in {"s_insert", "s_replace"}, c \in Classes, r \in Vers}
@@ -122,7 +129,7 @@ SetCoreOps(ts) ==
   \cup UNION {{[name |-> "s_drain", n |-> n, end |-> e, fin |-> f[1], j |-> f[2]] : f \in FinsFor(Len(ts) - n), e \in {"drop", "forget"}} : n \in 0..Len(ts)}
   \cup UNION {{[name |-> "s_iter", n |-> n, fin |-> f[1], j |-> f[2]] : f \in FinsFor(Len(ts) - n)} : n \in 0..Len(ts)}
   \cup UNION {{[name |-> "s_into_iter", n |-> n, end |-> e, fin |-> f[1], j |-> f[2]] : f \in FinsFor(Len(ts) - n), e \in {"drop", "forget"}} : n \in 0..Len(ts)}
-  \cup {[name |-> "s_fmt", style |-> st] : st \in {"debug", "alt", "display"}}
+  \cup {[name |-> "s_fmt", style |-> st] : st \in FmtStyles}
 
 SetBulkOps(ts) ==
   {[name |-> "s_extend", items |-> it] : it \in UNION {ItemSeqsOf(n) : n \in 0..((cap - Len(ts)) + MaxExtra)}}
@@ -226,8 +233,10 @@ ArgVT(op) ==
   IF op.name = "clone" THEN ArgVT(op.then) ELSE
   (IF "v" \in DOMAIN op /\ (op.name # "entry" \/ op.m \in EntryMethodsV) THEN {op.v.vt}
    ELSE IF "items" \in DOMAIN op THEN {op.items[j].v.vt : j \in 1..Len(op.items)} ELSE {})
-NewKT(op, ts) == IF op.name = "clone" THEN KTags(CloneOf(ts)) ELSE {}
-NewVT(op, r) == IF op.name = "clone" THEN {x[4] : x \in SeqRange(r.ret.cl)} ELSE IF op.name = "entry" /\ op.m = "or_default" /\ r.ret[1] \in {"vac", "panic"} THEN {FreshTag} ELSE {}
+NewKT(op, ts) == IF op.name = "clone" THEN KTags(CloneOf(ts))
+                 ELSE IF op.name \in {"clone_from", "s_clone_from"} THEN KTags(CloneOf(ts)) \cup {60 + i : i \in 1..Len(op.dst)} ELSE {}
+NewVT(op, r) == IF op.name = "clone" THEN {x[4] : x \in SeqRange(r.ret.cl)}
+                ELSE IF op.name = "clone_from" THEN {x[4] : x \in SeqRange(r.ret.cl)} \cup {60 + i : i \in 1..Len(op.dst)} ELSE IF op.name = "entry" /\ op.m = "or_default" /\ r.ret[1] \in {"vac", "panic"} THEN {FreshTag} ELSE {}
 PairwiseDisjoint(ss) == \A i, j \in 1..Len(ss) : i < j => ss[i] \cap ss[j] = {}
 
 Conservation ==
